@@ -95,6 +95,12 @@ func main() {
 	sort.Strings(all)
 	if *list {
 		fmt.Println(strings.Join(all, "\n"))
+		for f, why := range droppedFiles {
+			fmt.Fprintf(os.Stderr, "DROPPED harness file %s: %s\n", f, why)
+		}
+		if len(droppedFiles) > 0 {
+			os.Exit(4)
+		}
 		return
 	}
 	for _, pat := range strings.Split(*run, ",") {
